@@ -1,0 +1,7 @@
+//go:build !verif
+
+package proxy
+
+import "net/http"
+
+func verifPatchTransport(*http.Transport) {}
